@@ -282,10 +282,10 @@ type bufReaderConn struct {
 func (b *bufReaderConn) Read(p []byte) (int, error) { return b.br.Read(p) }
 
 type c09Rig struct {
-	rg                                   *rig
-	up, upTLS                            *c09Upstream
-	specs                                sync.Map
-	tcpA, tcpPP, sniA, dynA, wsA, tcpTLS string
+	rg                                          *rig
+	up, upTLS                                   *c09Upstream
+	specs                                       sync.Map
+	tcpA, tcpPP, sniA, dynA, wsA, tcpTLS, tcpWT string
 }
 
 func newC09Rig(c *ctx) (*c09Rig, error) {
@@ -306,6 +306,8 @@ func newC09Rig(c *ctx) (*c09Rig, error) {
 	upAddr := ln.Addr().String()
 	pt, pp, ps, pd, pw, dynPort, ptls := freePort(), freePort(), freePort(), freePort(), freePort(), freePort(), freePort()
 	r.tcpTLS = fmt.Sprintf("127.0.0.1:%d", ptls)
+	pwt := freePort()
+	r.tcpWT = fmt.Sprintf("127.0.0.1:%d", pwt) // a listener with a write timeout and no read timeout
 	certDir := filepath.Join(c.Dir, "c09cert")
 	os.MkdirAll(certDir, 0o755)
 	lcrt := c11Make("l-cert.pem", "tunnel.test")
@@ -313,7 +315,7 @@ func newC09Rig(c *ctx) (*c09Rig, error) {
 	os.WriteFile(filepath.Join(certDir, "l-key.pem"), lcrt.KeyPEM, 0o644)
 	r.tcpA, r.tcpPP, r.sniA, r.wsA = fmt.Sprintf("127.0.0.1:%d", pt), fmt.Sprintf("127.0.0.1:%d", pp), fmt.Sprintf("127.0.0.1:%d", ps), fmt.Sprintf("127.0.0.1:%d", pw)
 	r.dynA = fmt.Sprintf("127.0.0.1:%d", dynPort)
-	addr := fmt.Sprintf("%s;proto=tcp,%s;proto=tcp,%s;proto=tcp+sni,127.0.0.1:%d;proto=tcp-dynamic;refresh=1s,%s;proto=http,%s;proto=tcp;cs=cs1", r.tcpA, r.tcpPP, r.sniA, pd, r.wsA, r.tcpTLS)
+	addr := fmt.Sprintf("%s;proto=tcp,%s;proto=tcp,%s;proto=tcp+sni,127.0.0.1:%d;proto=tcp-dynamic;refresh=1s,%s;proto=http,%s;proto=tcp;cs=cs1,%s;proto=tcp;wt=800ms", r.tcpA, r.tcpPP, r.sniA, pd, r.wsA, r.tcpTLS, r.tcpWT)
 	rg, err := newRig(c, "tcp", []string{"-proxy.addr", addr, "-proxy.cs", "cs=cs1;type=path;cert=" + certDir, "-log.level", "WARN"})
 	if err != nil {
 		ln.Close()
@@ -327,6 +329,7 @@ func newC09Rig(c *ctx) (*c09Rig, error) {
 		fmt.Sprintf("route add snipp snipp.test/ tcp://%s opts \"proto=tcp pxyproto=true\"", upAddr),
 		fmt.Sprintf("route add dynsvc 127.0.0.1:%d tcp://%s", dynPort, upAddr),
 		fmt.Sprintf("route add tcptls :%d tcp://%s opts \"proto=tcp\"", ptls, upAddr),
+		fmt.Sprintf("route add tcpwt :%d tcp://%s opts \"proto=tcp\"", pwt, upAddr),
 		fmt.Sprintf("route add wssvc ws.test/ http://%s/", upAddr),
 		fmt.Sprintf("route add wsssvc wss.test/ https://%s/ opts \"tlsskipverify=true\"", tln.Addr().String()),
 	}
@@ -335,7 +338,7 @@ func newC09Rig(c *ctx) (*c09Rig, error) {
 		r.close()
 		return nil, err
 	}
-	for _, a := range []string{r.tcpA, r.tcpPP, r.sniA, r.wsA, r.dynA, r.tcpTLS} {
+	for _, a := range []string{r.tcpA, r.tcpPP, r.sniA, r.wsA, r.dynA, r.tcpTLS, r.tcpWT} {
 		if !fabioproc.WaitListening(a, 30*time.Second) {
 			r.close()
 			return nil, fmt.Errorf("listener %s did not come up\n%s", a, rg.proc.LogTail(1500))
@@ -384,7 +387,7 @@ func c09Tunnels(c *ctx) {
 			r := c.rng(int64(900 + g))
 			for i := g; i < n; i += G {
 				sp := &c09Spec{ID: fmt.Sprintf("%016x", uint64(seq.Add(1))|uint64(c.Seed)<<40), upDone: make(chan struct{})}
-				sp.Kind = choose(r, []string{"tcp", "tcp-pp", "sni", "sni", "sni-pp", "dyn", "ws", "ws", "wss", "tcp-tls", "tcp-tls"})
+				sp.Kind = choose(r, []string{"tcp", "tcp-pp", "sni", "sni", "sni-pp", "dyn", "ws", "ws", "wss", "tcp-tls", "tcp-tls", "tcp-wt"})
 				sp.SeedC, sp.SeedU = r.Uint64(), r.Uint64()
 				size := func() int64 {
 					switch x := r.Intn(12); {
@@ -411,6 +414,20 @@ func c09Tunnels(c *ctx) {
 				sp.Pause = r.Intn(4) == 0
 				sp.SlowRead = r.Intn(5) == 0 && sp.C2U+sp.U2C < 1<<20
 				sp.Close = choose(r, []string{"client-closes", "client-closes", "upstream-closes-first", "client-halfclose", "upstream-halfclose"})
+				if sp.Kind == "tcp-wt" {
+					// a write timeout must not become a limit on how long the client may stay quiet: small streams (no write
+					// ever blocks), and in the upstream-halfclose order the client waits 1.8s before it sends
+					sp.SlowRead = false
+					if sp.U2C > 256<<10 {
+						sp.U2C = 256 << 10
+					}
+					if sp.C2U > 256<<10 {
+						sp.C2U = 256 << 10
+					}
+					if r.Intn(2) == 0 {
+						sp.Close = "upstream-halfclose"
+					}
+				}
 				sp.HelloMode = choose(r, []string{"alone", "split", "coalesced", "coalesced"})
 				sp.WS101 = choose(r, []string{"whole", "split"})
 				rg.specs.Store(sp.ID, sp)
@@ -427,7 +444,7 @@ func c09Tunnels(c *ctx) {
 
 func c09Conn(c *ctx, rg *c09Rig, sp *c09Spec, hello map[string][]byte, r *rand.Rand, bc, bu *atomic.Int64) {
 	c.R.Eval(1)
-	addr := map[string]string{"tcp": rg.tcpA, "tcp-pp": rg.tcpPP, "sni": rg.sniA, "sni-pp": rg.sniA, "dyn": rg.dynA, "ws": rg.wsA, "wss": rg.wsA, "tcp-tls": rg.tcpTLS}[sp.Kind]
+	addr := map[string]string{"tcp": rg.tcpA, "tcp-pp": rg.tcpPP, "sni": rg.sniA, "sni-pp": rg.sniA, "dyn": rg.dynA, "ws": rg.wsA, "wss": rg.wsA, "tcp-tls": rg.tcpTLS, "tcp-wt": rg.tcpWT}[sp.Kind]
 	class := fmt.Sprintf("%s/w%d/pause=%v/slow=%v/%s", sp.Kind, sp.WriteMax, sp.Pause, sp.SlowRead, sp.Close)
 	if strings.HasPrefix(sp.Kind, "sni") {
 		class += "/hello-" + sp.HelloMode
@@ -529,6 +546,9 @@ func c09Conn(c *ctx, rg *c09Rig, sp *c09Spec, hello map[string][]byte, r *rand.R
 		recvErr = c09Recv(conn, ver, -1, sp.SlowRead)
 	case "upstream-halfclose":
 		recvErr = c09Recv(conn, ver, -1, sp.SlowRead) // until the upstream's FIN
+		if sp.Kind == "tcp-wt" {
+			time.Sleep(1800 * time.Millisecond) // quiet for longer than the listener's write timeout
+		}
 		sendErr <- c09Send(conn, sp.C2U, sp.SeedC, 0, sp.WriteMax, sp.Pause, rs)
 		tc.CloseWrite()
 	case "upstream-closes-first":
